@@ -25,8 +25,15 @@ def oracle(a, invf, J=14):
     e2 = f * (2 - f)
     e = mp.sqrt(e2)
 
-    def M(phi):
+    def M_quad(phi):
         return a * (1 - e2) * mp.quad(lambda t: (1 - e2 * mp.sin(t) ** 2) ** mp.mpf(-1.5), [0, phi])
+
+    def M(phi):
+        # meridian arc in closed form: a (E(phi | e^2) - e^2 sin phi cos phi / sqrt(1 - e^2 sin^2 phi)), E the incomplete elliptic
+        # integral of the second kind (the quadrature of the definition, M_quad, is ~100 times slower; they are compared below)
+        s_, c_ = mp.sin(phi), mp.cos(phi)
+        return a * (mp.ellipe(phi, e2) - e2 * s_ * c_ / mp.sqrt(1 - e2 * s_ * s_))
+    assert abs(M(mp.mpf(1)) - M_quad(mp.mpf(1))) < mp.mpf(10) ** -20 * a, 'meridian arc: closed form disagrees with the quadrature'
     A = 2 * M(mp.pi / 2) / mp.pi
 
     def chi(phi):
@@ -53,9 +60,12 @@ def oracle(a, invf, J=14):
 
     def g(c):
         return M(phi_of_chi(c)) / A - c
-    co = []
-    for j in range(1, J + 1):
-        co.append(4 / mp.pi * mp.quad(lambda c: g(c) * mp.sin(2 * j * c), [0, mp.pi / 4, mp.pi / 2]))
+    # Fourier sine coefficients of the odd, pi-periodic, analytic function g: the trapezoidal rule on N equal steps is exact up to
+    # aliasing with the coefficient of index 2N - j (~ n^(2N-j), far below the working precision for N = 40)
+    N = 40
+    ck = [k * mp.pi / (2 * N) for k in range(1, N)]
+    gk = [g(c) for c in ck]
+    co = [2 / mp.mpf(N) * sum(gv * mp.sin(2 * j * c) for gv, c in zip(gk, ck)) for j in range(1, J + 1)]
     o = {'a': a, 'invf': invf, 'A': A, 'e': e, 'e2': e2, 'co': co, 'chi': chi, 'phi_of_chi': phi_of_chi}
     _CACHE[key] = o
     return o
